@@ -2274,8 +2274,11 @@ def run(ctx):
                     x = [float(v) for v in kx[k].values]
                     y = [float(v) for v in ky[k].values]
                     rk = dict(rp, column=k, impl_stats=st)
+                    # (a sub-sample for the density - option nresample_kde - may be degenerate: profile not required)
+                    nfin = sum(1 for v in cols[k] if isfin(v))
                     if o_violin_quant(None, cols[k], st, rk, where):
-                        o_violin_profile(None, cols[k], x, y, rk, where, strict=k not in loose)
+                        o_violin_profile(None, cols[k], x, y, rk, where,
+                                         strict=k not in loose and options.get("nresample_kde", 500) >= nfin)
             except Exception as e:      # noqa: BLE001
                 fail(None, f"C20/{where}/summaries-not-readable", f"reading stats / kde_x / kde_y after {after} "
                      f"raised {flat_exc(e)}", rp)
